@@ -187,3 +187,156 @@ Proof.
   split; [|vm_compute; repeat split].
   apply (Refine_history 5 ex_enc ex_venc); [unfold id_ok; reflexivity|exact ex_enc_inj|vm_compute; discriminate].
 Qed.
+
+(* ==== Round 4 ==== *)
+(* (7) the executable abstract answers.  [interval_keys enc c lo hi]: the abstract keys that have an
+   entry and encode into [lo, hi], ascending (insertion sort of a filter of the core's keys);
+   [abs_get_range] / [abs_keys_in_range]: the abstract GETs of those keys at v, kept where a value is
+   found, the first unresolved conflict failing the whole answer. *)
+Theorem Refine_get_range_exec : forall i enc venc, id_ok i -> (forall k1 k2, enc k1 = enc k2 -> k1 = k2) ->
+  (forall k1 k2, prefix_free_pair (enc k1) (enc k2)) ->
+  forall c s, Refines i enc venc c s -> CoreInv c -> forall v lo hi,
+  (forall k, prefix_free_pair lo (enc k)) -> (forall k, prefix_free_pair hi (enc k)) ->
+  prefix_free_pair lo hi -> lex_le lo hi ->
+  get_range (best_of_core c v) (rcx i v) lo hi s
+  = res_map (map (fun kx => (enc (fst kx), venc (snd kx)))) (abs_get_range enc c v lo hi).
+Proof. exact refine_get_range_abs. Qed.
+Print Assumptions Refine_get_range_exec.
+
+(* the keys-only variant (KeysInRange; closes "keys-only range variant" of the to-do list) *)
+Theorem Refine_keys_in_range : forall i enc venc, id_ok i -> (forall k1 k2, enc k1 = enc k2 -> k1 = k2) ->
+  (forall k1 k2, prefix_free_pair (enc k1) (enc k2)) ->
+  forall c s, Refines i enc venc c s -> CoreInv c -> forall v lo hi,
+  (forall k, prefix_free_pair lo (enc k)) -> (forall k, prefix_free_pair hi (enc k)) ->
+  prefix_free_pair lo hi -> lex_le lo hi ->
+  keys_in_range (best_of_core c v) (rcx i v) lo hi s = res_map (map enc) (abs_keys_in_range enc c v lo hi).
+Proof. exact refine_keys_in_range_abs. Qed.
+Print Assumptions Refine_keys_in_range.
+
+(* what the listing contains: the keys of the interval whose abstract GET at v finds a value *)
+Theorem Refine_listed_keys : forall enc, (forall k1 k2, enc k1 = enc k2 -> k1 = k2) ->
+  forall c, CoreInv c -> forall v lo hi ks, abs_keys_in_range enc c v lo hi = Ok ks ->
+  forall k, In k ks <-> (lex_le lo (enc k) /\ lex_le (enc k) hi /\ exists u x, get c k v = RFound u x).
+Proof. exact abs_keys_in_range_spec. Qed.
+Print Assumptions Refine_listed_keys.
+
+(* (8) the keyvalue endpoints.  Abstract key n is the key string [kstr n] (injective, no byte 0,
+   not empty); its TKey is keyvalue.NewTKey (kv_enc kstr n = kv_tkey (kstr n)); listings are decoded
+   by DecodeTKey (decode_term_tkey, C06_decode_tkey).  Interval ends are any NUL-free strings a <= b;
+   by C05_string_order the TKey interval is the string interval. *)
+Theorem Refine_kv_get_data : forall i kstr venc, id_ok i -> (forall k1 k2, kstr k1 = kstr k2 -> k1 = k2) ->
+  (forall k, ~ In 0 (kstr k)) ->
+  forall c s, Refines i (kv_enc kstr) venc c s -> CoreInv c -> forall v k,
+  kv_get_data (best_of_core c v) (rcx i v) (kstr k) s = Ok (point_of venc (get c k v)).
+Proof. exact refine_kv_get_data. Qed.
+Print Assumptions Refine_kv_get_data.
+
+Theorem Refine_kv_keys : forall i kstr venc, id_ok i -> (forall k1 k2, kstr k1 = kstr k2 -> k1 = k2) ->
+  (forall k, ~ In 0 (kstr k)) -> (forall k, kstr k <> []) ->
+  forall c s, Refines i (kv_enc kstr) venc c s -> CoreInv c -> forall v,
+  kv_keys (best_of_core c v) (rcx i v) s
+  = res_map (map kstr) (abs_keys_in_range (kv_enc kstr) c v (min_tkey 177) (max_tkey 177)).
+Proof. exact refine_kv_keys. Qed.
+Print Assumptions Refine_kv_keys.
+
+(* ... where the class bounds enclose every key: all abstract keys are candidates *)
+Theorem Refine_kv_keys_all : forall kstr c,
+  interval_keys (kv_enc kstr) c (min_tkey 177) (max_tkey 177) = sort_by (kv_enc kstr) (core_keys c).
+Proof. exact kv_keys_all. Qed.
+Print Assumptions Refine_kv_keys_all.
+
+Theorem Refine_kv_keyrange : forall i kstr venc, id_ok i -> (forall k1 k2, kstr k1 = kstr k2 -> k1 = k2) ->
+  (forall k, ~ In 0 (kstr k)) -> (forall k, kstr k <> []) ->
+  forall c s, Refines i (kv_enc kstr) venc c s -> CoreInv c -> forall v a b,
+  ~ In 0 a -> ~ In 0 b -> lex_le a b ->
+  kv_keyrange (best_of_core c v) (rcx i v) a b s
+  = res_map (map kstr) (abs_keys_in_range (kv_enc kstr) c v (kv_tkey a) (kv_tkey b)).
+Proof. exact refine_kv_keyrange. Qed.
+Print Assumptions Refine_kv_keyrange.
+
+Theorem Refine_kv_keyrangevalues : forall i kstr venc, id_ok i -> (forall k1 k2, kstr k1 = kstr k2 -> k1 = k2) ->
+  (forall k, ~ In 0 (kstr k)) -> (forall k, kstr k <> []) ->
+  forall c s, Refines i (kv_enc kstr) venc c s -> CoreInv c -> forall v a b,
+  ~ In 0 a -> ~ In 0 b -> lex_le a b ->
+  kv_keyrangevalues (best_of_core c v) (rcx i v) a b s
+  = res_map (map (fun kx => (kstr (fst kx), venc (snd kx)))) (abs_get_range (kv_enc kstr) c v (kv_tkey a) (kv_tkey b)).
+Proof. exact refine_kv_keyrangevalues. Qed.
+Print Assumptions Refine_kv_keyrangevalues.
+
+(* (9) DeleteRange as an abstract operation ([core_delete_range]: a tombstone at v for every key
+   the keys-only listing of [lo, hi] at v reports; defined beside the core machine, Model.Core is
+   unchanged).  When no key of the interval is in unresolved conflict at v (the abstract operation
+   is Ok), BadgerDB.DeleteRange succeeds and its result refines the abstract result. *)
+Theorem Refine_delete_range : forall i enc venc, id_ok i -> (forall k1 k2, enc k1 = enc k2 -> k1 = k2) ->
+  (forall k1 k2, prefix_free_pair (enc k1) (enc k2)) ->
+  forall c s, Refines i enc venc c s -> CoreInv c -> forall v lo hi, id_ok v ->
+  (forall k, prefix_free_pair lo (enc k)) -> (forall k, prefix_free_pair hi (enc k)) ->
+  prefix_free_pair lo hi -> lex_le lo hi ->
+  forall c', core_delete_range enc c v lo hi = Ok c' ->
+  exists s', delete_range (best_of_core c v) (rcx i v) lo hi s = Ok s' /\ Refines i enc venc c' s'.
+Proof. exact refine_delete_range. Qed.
+Print Assumptions Refine_delete_range.
+
+(* its effect on every abstract read: the deleted keys read as absent at v ... *)
+Theorem Refine_delete_absent : forall c, CoreInv c -> forall v ks k,
+  In k ks -> get (core_delete_keys c v ks) k v = RNone.
+Proof. exact delete_keys_get_self. Qed.
+Print Assumptions Refine_delete_absent.
+
+(* ... and at a child of v that has no entry of its own (deeper single-parent descendants by
+   iterating Refine_get_inherit) ... *)
+Theorem Refine_delete_absent_child : forall c, CoreInv c -> forall v ks k d,
+  In k ks -> cpar c d = [v] -> ent_of c k d = None -> get (core_delete_keys c v ks) k d = RNone.
+Proof. exact delete_keys_get_child. Qed.
+Print Assumptions Refine_delete_absent_child.
+
+Theorem Refine_get_inherit : forall c k d p, CoreInv c -> cpar c d = [p] -> ent_of c k d = None ->
+  get c k d = get c k p.
+Proof. exact core_get_inherit. Qed.
+Print Assumptions Refine_get_inherit.
+
+(* ... while other keys everywhere, and all keys at every version that is not v or a descendant of
+   v (ancestors, siblings, unrelated branches), read what they read before *)
+Theorem Refine_delete_unchanged : forall c, CoreInv c -> forall v ks k u,
+  (~ In k ks \/ ~ anc (cpar c) v u) -> get (core_delete_keys c v ks) k u = get c k u.
+Proof. exact delete_keys_get_other. Qed.
+Print Assumptions Refine_delete_unchanged.
+
+Theorem Refine_delete_keeps_inv : forall c v ks, CoreInv c -> CoreInv (core_delete_keys c v ks).
+Proof. exact core_delete_keys_inv. Qed.
+Print Assumptions Refine_delete_keeps_inv.
+
+(* ---- instantiation: key strings "k", "ka", "kaa", ... ---- *)
+Definition ex_kstr (n : N) : bytes := 107 :: repeat 97 (N.to_nat n).
+Example ex_kstr_inj : forall k1 k2, ex_kstr k1 = ex_kstr k2 -> k1 = k2.
+Proof.
+  intros k1 k2 E. inversion E as [H]. apply (f_equal (@length N)) in H. rewrite !repeat_length in H. now apply N2Nat.inj.
+Qed.
+Example ex_kstr_nul : forall k, ~ In 0 (ex_kstr k).
+Proof. intros k [H|H]; [discriminate|]. apply repeat_spec in H. discriminate. Qed.
+Example ex_kstr_ne : forall k, ex_kstr k <> [].
+Proof. discriminate. Qed.
+
+(* the history of Refine_concrete, then version 4 (the merge) is read through the endpoints and a
+   DeleteRange over ["k", "kaa"] is run on it on both sides *)
+Example Refine_kv_concrete :
+  let c := run ex_hist core_init in
+  let s := snd (brun 5 (kv_enc ex_kstr) ex_venc ex_hist core_init []) in
+  Refines 5 (kv_enc ex_kstr) ex_venc c s /\ CoreInv c
+  /\ kv_keys (best_of_core c 2) (rcx 5 2) s = Ok [ex_kstr 0; ex_kstr 2; ex_kstr 3]
+  /\ abs_keys_in_range (kv_enc ex_kstr) c 2 (min_tkey 177) (max_tkey 177) = Ok [0; 2; 3]
+  /\ kv_keyrange (best_of_core c 3) (rcx 5 3) [107] [107; 97; 97] s = Ok [ex_kstr 0]
+  /\ abs_keys_in_range (kv_enc ex_kstr) c 3 (kv_tkey [107]) (kv_tkey [107; 97; 97]) = Ok [0]
+  /\ kv_get_data (best_of_core c 4) (rcx 5 4) (ex_kstr 0) s = Ok (Some (ex_venc 200))
+  /\ kv_keyrangevalues (best_of_core c 2) (rcx 5 2) [107; 97] [107; 122] s = Ok [(ex_kstr 2, ex_venc 7); (ex_kstr 3, [])]
+  /\ (exists c', core_delete_range (kv_enc ex_kstr) c 4 (kv_tkey [107]) (kv_tkey [107; 97; 97]) = Ok c'
+                 /\ get c' 0 4 = RNone /\ get c' 3 4 = get c 3 4 /\ get c' 0 2 = get c 0 2
+                 /\ delete_range (best_of_core c 4) (rcx 5 4) (kv_tkey [107]) (kv_tkey [107; 97; 97]) s
+                    = Ok (snd (brun 5 (kv_enc ex_kstr) ex_venc [ODel 0 4] c s))).
+Proof.
+  split; [|split].
+  - apply (Refine_history 5 (kv_enc ex_kstr) ex_venc); [unfold id_ok; reflexivity| |vm_compute; discriminate].
+    exact (kv_enc_inj ex_kstr ex_kstr_inj).
+  - apply core_inv_run. exact core_inv_init.
+  - vm_compute. repeat split. eexists. repeat split.
+Qed.
